@@ -232,10 +232,15 @@ def build_stmt(slot, d, t, o):
         return Q.from_(t).join(o).cross().select(F(o, "b")).distinct_on(F(t, "a"))
     if slot == 20:  # DELETE
         return Q.from_(t).delete().where(F(t, "a") == 1)
+    if slot == 21:  # ON CONFLICT with an expression target
+        return Q.into(t).insert(1, 2).on_conflict(fn.Lower(F(t, "a"))).do_nothing()
+    if slot == 22:  # window function in the select list, aggregate filter in HAVING
+        return (base.select(fn.Max(F(t, "a")), fn.Coalesce(F(t, "b"), F(o, "c")))
+                .groupby(F(o, "b")).having(fn.Sum(F(t, "a")) > 1))
     raise AssertionError(slot)
 
 
-NSLOT = 21
+NSLOT = 23
 
 
 @harness(
@@ -244,7 +249,7 @@ NSLOT = 21
     bounds={"quick": {"L": 1}, "thorough": {"L": 2}},
     timeout={"quick": 300, "thorough": 1500},
     witness=[dict(slot=0, d=0, p=0, s="n"), dict(slot=11, d=2, p=3, s="n")],
-    doc="21 clause slots of SELECT / INSERT / UPDATE / DELETE / upsert statements, generic and PostgreSQL builders, x "
+    doc="23 clause slots of SELECT / INSERT / UPDATE / DELETE / upsert statements, generic and PostgreSQL builders, x "
         "table-pair shapes 0..3 x any new table name",
 )
 def c16_statements(slot: int, d: int, p: int, s: str) -> int:
